@@ -680,6 +680,13 @@ package router
 //@   callsite handleServerReq: [C03:this-query-is-handled] arg0 == s.r && arg1 == m && arg2 == rc
 //@   callsite mustHaveRespB: [C03:the-answer-to-this-query-is-what-is-sent] arg0 == m && arg1 == rc.Response.Msg
 //@   callsite writeResp: [C03:answer-goes-to-the-client-that-asked] arg0 == s && arg2 == rc.RemoteAddr && arg3 == oobAddr
+//@   ghost gBuf pool.Buffer = nil
+//@   ghost nRelB int = 0
+//@   aftercall mustHaveRespB: gBuf = ret0
+//@   oncall ReleaseBuf: nRelB = nRelB + 1
+//@   callsite writeResp: [C20:the-packed-response-while-it-is-still-owned] arg1 == gBuf && nRelB == 0
+//@   callsite ReleaseBuf: [C20:its-own-response-buffer-after-the-write] arg0 == gBuf && nW == 1 && nRelB == 0
+//@   ensures [C20:response-buffer-released-exactly-once] nRelB == 1
 //@   loop 1:
 //@     invariant clientUdpSize >= 0 && clientUdpSize <= 65535
 //@     invariant -1 <= lastOpt && lastOpt <= rangeindex
@@ -701,6 +708,14 @@ package router
 //@   callsite handleServerReq: [C03:this-query-is-handled] arg0 == s.r && arg1 == m && arg2 == rc
 //@   callsite mustHaveRespB: [C03:the-answer-to-this-query-is-what-is-sent] arg0 == m && arg1 == rc.Response.Msg && arg3 == true
 //@   callsite Write: [C03:answer-goes-to-the-connection-that-asked] arg0 == c
+// the packed response is this call's own buffer: written first, given back exactly once afterwards, on every path
+//@   ghost gBuf pool.Buffer = nil
+//@   ghost nRelB int = 0
+//@   aftercall mustHaveRespB: gBuf = ret0
+//@   oncall ReleaseBuf: nRelB = nRelB + 1
+//@   callsite Write: [C20:the-packed-response-while-it-is-still-owned] arg1 == gBuf && nRelB == 0
+//@   callsite ReleaseBuf: [C20:its-own-response-buffer-after-the-write] arg0 == gBuf && nW == 1 && nRelB == 0
+//@   ensures [C20:response-buffer-released-exactly-once] nRelB == 1
 
 // the refresh goroutine: releases its private question and the reservation exactly once, on every path
 //@ closure router.asyncSingleFlightPrefetch$1
@@ -1397,6 +1412,10 @@ package router
 //@   callsite mustHaveRespB?: [C03:the-answer-to-this-query-is-what-is-sent] arg0 == m && arg1 == rc.Response.Msg
 //@   callsite Write?: [C03:the-packed-response-is-the-body] arg1 == gB && len(arg1) >= 12
 //@   callsite Write?: [C03:answer-goes-to-the-request-that-asked] arg0 == w
+//@   ghost nRelB int = 0
+//@   oncall ReleaseBuf?: nRelB = nRelB + 1
+//@   callsite ReleaseBuf?: [C20:its-own-response-buffer-once-after-the-write] arg0 == gB && nW == 1 && nRelB == 0
+//@   ensures [C20:response-buffer-released-exactly-once] nRelB == nW
 
 // gnetServer.OnOpen (gnet TCP listener): every new connection is charged 3 to its remote address; it stays open
 // exactly when the limiter admitted it.
@@ -1548,6 +1567,10 @@ package router
 //@   callsite mustHaveRespB?: [C03:the-answer-to-this-query-is-what-is-sent] arg0 == m && arg1 == rc.Response.Msg
 //@   callsite SetBody?: [C03:the-packed-response-is-the-body] arg1 == gB && len(arg1) >= 12
 //@   callsite ReleaseBuf?: [C20:a-buffer-the-server-still-holds-is-not-recycled] !attr(lent, arg0)
+//@   ghost nRelB int = 0
+//@   oncall ReleaseBuf?: nRelB = nRelB + 1
+//@   callsite ReleaseBuf?: [C20:its-own-response-buffer-once-after-the-body-was-set] arg0 == gB && nW == 1 && nRelB == 0
+//@   ensures [C20:response-buffer-released-exactly-once] nRelB == nW
 
 // udpServer.startThreadOthers (portable read loop): every datagram read is handed to handleMsg once, as exactly
 // the bytes (and control bytes) that were read, with the address it came from; a read error with nothing read ends
@@ -1753,6 +1776,10 @@ package router
 //@   ensures [C03:exactly-one-answer-per-decoded-query] nW == (gErr == nil ? 1 : 0) && nH == nW && nRel == nW
 //@   callsite Write?: [C03,C13:one-framed-write] arg0 == stream && arg1 == gB && len(arg1) >= 14 && len(arg1) - 2 <= 65535 && BE16(arg1, 0) == uint16(len(arg1) - 2)
 //@   callsite ReleaseMsg?: [C20:released-after-the-answer] nW == 1
+//@   ghost nRelB int = 0
+//@   oncall ReleaseBuf?: nRelB = nRelB + 1
+//@   callsite ReleaseBuf?: [C20:its-own-response-buffer-once-after-the-write] arg0 == gB && nW == 1 && nRelB == 0
+//@   ensures [C20:response-buffer-released-exactly-once] nRelB == nW
 //@   callsite mustHaveRespB?: [C03:fallback-answer] arg2 == dnsmsg.RCodeRefused && arg3 == true
 //@   callsite handleServerReq?: [C03:this-query-is-handled] arg0 == r && arg1 == m && arg2 == rc
 //@   callsite mustHaveRespB?: [C03:the-answer-to-this-query-is-what-is-sent] arg0 == m && arg1 == rc.Response.Msg
@@ -1938,4 +1965,18 @@ package router
 //@   callsite NewDecoder: [C10:decodes-into-the-configuration-that-runs] typeIs(arg0.Result, *Config) && ptrOf(arg0.Result, Config) == cfg
 //@   callsite Decode: [C10:the-strict-decoder-decodes-the-parsed-file] gYamlErr == nil && gNewErr == nil && arg0 == gDec && arg1 == m
 //@   callsite run: [C10:only-a-configuration-that-decoded-cleanly-runs] nDecode == 1 && gDecErr == nil && arg1 == cfg
+
+// the gnet write-completion callback: the packed response handed to AsyncWrite is given back exactly once, here
+// (after the engine is done with it), and the connection's in-flight slot is freed once
+//@ closure gnetServer.OnTraffic$1$1
+//@   props C20 C13
+//@   requires e != nil && e.logger != nil && cc != nil && c != nil && buf != nil
+//@   ghost nRelB int = 0
+//@   ghost nSlot int = 0
+//@   oncall ReleaseBuf: nRelB = nRelB + 1
+//@   oncall Add: nSlot = nSlot + 1
+//@   modifies *
+//@   callsite ReleaseBuf: [C20:the-response-buffer-of-this-write] arg0 == buf && nRelB == 0
+//@   callsite Add: [C13:frees-this-connections-slot] arg0 == &cc.concurrentRequests && arg1 == -1
+//@   ensures [C20,C13:buffer-and-slot-given-back-exactly-once] nRelB == 1 && nSlot == 1
 
